@@ -2,53 +2,10 @@
    implementation wrote for the observed model state, and the model's decoder applied to the
    implementation's bytes must give back that state. *)
 From Coq Require Import List NArith ZArith Arith Bool.
-From Dimod Require Import Base.Util Gen.Gen_Codec Model.Codec Model.Rebuild Gen.Gen_Loaders Model.Loaders.
+From Dimod Require Import Base.Util Gen.Gen_Codec Model.Codec Model.CodecEq Model.CqmFile Model.CqmFile2 Model.Rebuild Gen.Gen_Loaders Model.Loaders.
+From Dimod Require Export Model.CodecEq.
 Import ListNotations.
 
-Definition N_eqb := N.eqb.
-Definition bl_eqb := list_eqb bytes_eqb.
-
-Fixpoint label_eqb (a b : label) {struct a} : bool :=
-  match a, b with
-  | LInt x, LInt y => Z.eqb x y
-  | LStr s, LStr t => bytes_eqb s t
-  | LTup l, LTup m =>
-      (fix go (l m : list label) : bool :=
-         match l, m with
-         | [], [] => true
-         | x :: l', y :: m' => label_eqb x y && go l' m'
-         | _, _ => false
-         end) l m
-  | _, _ => false
-  end.
-
-Definition labels_eqb := option_eqb (list_eqb label_eqb).
-Definition dtype_eqb (a b : dtype) : bool := match a, b with F32, F32 | F64, F64 => true | _, _ => false end.
-Definition bvt_eqb (a b : bvartype) : bool := match a, b with BSPIN, BSPIN | BBINARY, BBINARY => true | _, _ => false end.
-Definition ver_eqb (a b : N * N) : bool := N.eqb (fst a) (fst b) && N.eqb (snd a) (snd b).
-Definition rec_eqb (a b : N * bytes) : bool := N.eqb (fst a) (fst b) && bytes_eqb (snd a) (snd b).
-
-Definition bqmfile_eqb (a b : bqmfile) : bool :=
-  ver_eqb (bf_version a) (bf_version b) && dtype_eqb (bf_dtype a) (bf_dtype b) && bvt_eqb (bf_vt a) (bf_vt b)
-  && N.eqb (bf_m a) (bf_m b) && bytes_eqb (bf_off a) (bf_off b) && bl_eqb (bf_lin a) (bf_lin b)
-  && list_eqb (list_eqb rec_eqb) (bf_adj a) (bf_adj b) && labels_eqb (bf_labels a) (bf_labels b).
-
-Definition vinfo_eqb (a b : N * (bytes * bytes)) : bool :=
-  N.eqb (fst a) (fst b) && bytes_eqb (fst (snd a)) (fst (snd b)) && bytes_eqb (snd (snd a)) (snd (snd b)).
-
-Definition qmfile_eqb (a b : qmfile) : bool :=
-  dtype_eqb (qf_dtype a) (qf_dtype b) && N.eqb (qf_m a) (qf_m b)
-  && list_eqb vinfo_eqb (qf_vinfo a) (qf_vinfo b) && bytes_eqb (qf_off a) (qf_off b)
-  && bl_eqb (qf_lin a) (qf_lin b) && list_eqb (list_eqb rec_eqb) (qf_neig a) (qf_neig b)
-  && labels_eqb (qf_labels a) (qf_labels b).
-
-Definition q_eqb (a b : N * (N * bytes)) : bool :=
-  N.eqb (fst a) (fst b) && N.eqb (fst (snd a)) (fst (snd b)) && bytes_eqb (snd (snd a)) (snd (snd b)).
-
-Definition exprfile_eqb (a b : exprfile) : bool :=
-  dtype_eqb (ef_dtype a) (ef_dtype b) && bytes_eqb (ef_type a) (ef_type b)
-  && list_eqb N.eqb (ef_idx a) (ef_idx b) && bytes_eqb (ef_off a) (ef_off b)
-  && bl_eqb (ef_lin a) (ef_lin b) && list_eqb q_eqb (ef_quad a) (ef_quad b).
 
 Inductive case :=
 | CBqm (f : bqmfile) (impl : bytes)
@@ -57,7 +14,18 @@ Inductive case :=
 | CVarinfo (vi : list (N * (bytes * bytes))) (impl : bytes)   (* the `varinfo` member of a CQM zip *)
 | CLabels (l : list label) (json : bytes)
   (* the full adjacency observed on the LOADED model (iter_neighborhood order) and the lower triangles in the file *)
-| CAdj (full : list (list (N * bytes))) (low : list (list (N * bytes))).     (* json.dumps(serializable labels) as written into a zip member *)
+| CAdj (full : list (list (N * bytes))) (low : list (list (N * bytes)))     (* json.dumps(serializable labels) as written into a zip member *)
+  (* a CQM serialization-version-1.x file: the members of its zip archive, and the model the implementation
+     loaded from it (variables in the LOADED order, objective, constraints) *)
+| CLegacy (z : archive) (loaded : lmodel)
+  (* a BQM file written by an OLDER writer: only the decoder is compared (state of the loaded model) *)
+  (* a CQM serialization-version-2.0 file written by the implementation: the members of its archive in directory order,
+     and the saved model as the member-level record of Model/CqmFile2.v *)
+| CCqm2 (z : archive) (m : c2model)
+| CBqmDec (f : bqmfile) (impl : bytes)
+| CExprDec (f : exprfile) (impl : bytes)
+  (* float32 bytes and the float64 bytes NumPy converts them to *)
+| CWiden (pairs : list (bytes * bytes)).
 
 Definition res_is {A : Type} (eqb : A -> A -> bool) (r : res A) (x : A) : bool :=
   match r with Ok y => eqb y x | Err => false end.
@@ -89,6 +57,12 @@ Definition check (c : case) : bool :=
   | CAdj full low =>
       let a := map nb_nat full in
       adj_eqb (lowers a) (map nb_nat low) && adj_eqb (qm_load_adjacency poison (fun b => b) (map nb_nat low)) a
+  | CBqmDec f bs => res_is bqmfile_eqb (run bqm_decode bs) f && bqm_rebuild_ok (bf_adj f)
+  | CCqm2 z m => list_eqb member_eqb (cqm2_archive m) z
+                 && match cqm2_read (length (c2_vinfo m)) z with Ok m' => c2model_eqb m' m | Err => false end
+  | CExprDec f bs => res_is exprfile_eqb (run expr_decode bs) f
+  | CWiden ps => forallb (fun p => bytes_eqb (f32_to_f64 (fst p)) (snd p)) ps
+  | CLegacy z loaded => match legacy_read z with Ok m => lmodel_eqb m loaded | Err => false end
   | CLabels l js => bytes_eqb (pr_labels l) js
                     && match labels_dec js with Some l' => list_eqb label_eqb l' l | None => false end
   end.
